@@ -157,6 +157,14 @@ def build(sc, sources, root):
             toml_rec = t
         open(os.path.join(root, 'elsewhere', 'cfg.toml'), 'w', encoding='utf-8').write(txt)
         argv += ['--toml', os.path.join(root, 'elsewhere', 'cfg.toml')]
+    # files next to the place of the report whose names a careless writer might use for itself (temporary file, backup, lock):
+    # they belong to the user and must be found unchanged
+    if sc['k'] % 2 == 1:
+        for nm in (REPORT + '.tmp', REPORT + '.bak', REPORT + '.orig', REPORT + '.new', REPORT + '~', '.' + REPORT + '.swp', REPORT + '.lock',
+                   'solstat_report.tmp', '.solstat_report.md.tmp', 'solstat_report.md.part'):
+            pth = os.path.join(cwd, nm)
+            if not os.path.exists(pth):
+                open(pth, 'wb').write(b'kept by the user: ' + nm.encode() + b'\n')
     sb = stale_bytes(sc)
     if sc['fail'] == 'report-is-a-directory':
         os.makedirs(os.path.join(cwd, REPORT))
